@@ -96,6 +96,8 @@ pub struct PrintOpts {
     pub lit_style: u8,
     /// `^` as `\A`, `$` as `\z`
     pub anchors_az: bool,
+    /// `^` as `(?-m:^)`, `$` as `(?-m:$)` (the same thing as `\A` / `\z` under every flag setting)
+    pub anchors_negm: bool,
     /// possessive quantifier `X*+` as atomic group `(?>X*)`
     pub poss_as_atomic: bool,
     /// newline literal as a raw newline character instead of `\n`
@@ -235,8 +237,8 @@ impl<'o> P<'o> {
             }
             Perl(c) => self.toks.push(format!("\\{}", c)),
             Assert(a) => match a {
-                A::StartText => self.t(if self.opts.anchors_az { "\\A" } else { "^" }),
-                A::EndText => self.t(if self.opts.anchors_az { "\\z" } else { "$" }),
+                A::StartText => self.t(if self.opts.anchors_az { "\\A" } else if self.opts.anchors_negm { "(?-m:^)" } else { "^" }),
+                A::EndText => self.t(if self.opts.anchors_az { "\\z" } else if self.opts.anchors_negm { "(?-m:$)" } else { "$" }),
                 A::StartLine | A::EndLine => {
                     if self.opts.flags_inline {
                         self.t("(?:");
